@@ -119,6 +119,10 @@ def standard_repos(root):
         # several spellings of one precedence on the same commit (SemVer ignores build metadata): the choice among them must be stable
         "equal_tags": [("commit", T), ("tag", "v1.2.3"), ("tag", "v1.2.3+build.1"), ("tag", "v1.2.3+linux"), ("tag", "1.2.3"), ("atag", "v1.2.3+z", T + 3), ("commit", T + 7)],
     }
+    # long non-ASCII names: git's answers exceed a few hundred bytes and any fixed byte offset falls inside a multi-byte character
+    # in one of the two (2-byte and 3-byte runs) - for code that cuts, pads or logs git output by bytes
+    specs["long_unicode_branch2"] = [("commit", T), ("tag", "v1.0.0"), ("branch", "feat/" + "\u00e9" * 100), ("commit", T + 10)]
+    specs["long_unicode_branch3"] = [("commit", T), ("tag", "v1.0.0")] + [("tag", "rel-" + "\u6f22" * 20 + f"-{i}") for i in range(6)] + [("branch", "f/" + "\u6f22" * 70), ("commit", T + 10)]
     out = {}
     for name, script in specs.items():
         p = os.path.join(root, name)
